@@ -334,7 +334,7 @@ def generate(rng, tier):
     seqs = corpus_sequences()
     for style, ops in BOUNDARY_SEQS:
         seqs.append(dict(ops=ops, style=style, origin="boundary", dimmax=rng.choice([0, 1, 2]), shortest=rng.choice([0, 1, 3])))
-    nrand = 1500 if thorough else 260
+    nrand = 12000 if thorough else 1500
     unis = {}
     for i in range(nrand):
         r = rng.random()
@@ -361,12 +361,25 @@ def generate(rng, tier):
 
 
 # ------------------------------------------------------------------------------------------------ running and comparing
+CRASH_BUDGET = {"n": 0}
+
+
 def run_lines(binary, lines, chunk=120, workers=4):
+    """feed case lines in groups; once more than 12 crashed / hanging cases were seen in this check, the remaining groups are
+    not run any more (their answers are SKIPPED): the violation is established and a hanging implementation must not cost hours"""
     groups = [("G", lines[i:i + chunk]) for i in range(0, len(lines), chunk)]
-    out = core.run_grouped_parallel(binary, groups, nchunks=workers, timeout=3600)
     res = []
-    for (_, ans) in out:
-        res += ans
+    wave = workers * 2
+    for w in range(0, len(groups), wave):
+        gs = groups[w:w + wave]
+        if CRASH_BUDGET["n"] > 12:
+            for g in gs:
+                res += ["SKIPPED"] * len(g[1])
+            continue
+        out = core.run_grouped_parallel(binary, gs, nchunks=workers, timeout=900, max_restarts=3)
+        for (_, ans) in out:
+            CRASH_BUDGET["n"] += sum(1 for a in ans if a.startswith(("CRASH", "DIED")))
+            res += ans
     return res
 
 
@@ -398,8 +411,10 @@ def seg_fields(seg):
 
 def compare(mode, cpp, osegs):
     """first disagreement between the C++ answer line and the oracle's segments: (arrow, field, expected, observed) or None"""
+    if cpp == "SKIPPED":
+        return None
     if cpp.startswith("CRASH") or cpp.startswith("DIED"):
-        return (0, "crash", "no crash", cpp[:80])
+        return (0, "crash-or-hang", "no crash", cpp[:80])
     csegs = cpp.split(" | ") if cpp else []
     for i, o in enumerate(osegs):
         if i >= len(csegs):
@@ -490,6 +505,8 @@ def check(ctx, replay=None):
                 zb = zfinal.get((si, c))
                 pb = sorted(tuple(t.split(",")) for t in a[5:].split(";")) if a.startswith("bars=") and a != "bars=-" else ([] if a == "bars=-" else None)
                 res.evaluations += 1
+                if a == "SKIPPED":
+                    continue
                 if pb is None:
                     report("P:persistence-matrix-failed:" + s["style"], s, "P", dm, sh, len(s["ops"]), "the persistence matrix (C05 substrate) did not "
                            "deliver a barcode for an insertion-only sequence: " + a[:60], "-", a[:80], c)
@@ -529,7 +546,7 @@ def check(ctx, replay=None):
         for c in cols:
             a = cpp[c][li]
             if mode == "Z":
-                zfinal[(si, c)] = final_bars_Z(a)
+                zfinal[(si, c)] = None if (a == "SKIPPED" or a.startswith(("CRASH", "DIED")) or "EXC" in a) else final_bars_Z(a)
             v = compare(mode, a, osegs)
             res.traces_validated += 1
             res.evaluations += len(osegs)
@@ -548,7 +565,7 @@ def check(ctx, replay=None):
     # metamorphic: reversal (C++ against itself, no oracle)
     if not replay:
         raws = [s for s in seqs if s.get("raw")]
-        pick = raws[: (400 if ctx.tier == "thorough" else 80)]
+        pick = raws[: (2000 if ctx.tier == "thorough" else 300)]
         rl, rmeta = [], []
         for s in pick:
             A, B = closure_and_reverse(rng, s["raw"])
@@ -564,6 +581,8 @@ def check(ctx, replay=None):
                 n = len(A)
                 res.evaluations += 1
                 res.count("metamorphic: reversal of a full zigzag")
+                if "SKIPPED" in (a, b):
+                    continue
                 if a.startswith(("CRASH", "DIED")) or b.startswith(("CRASH", "DIED")) or "EXC" in a or "EXC" in b:
                     report("Z:reversal:crash-or-exception:" + s["style"], dict(ops=A, style=s["style"]), "Z", -1, 0, n, "crash or exception on a full zigzag or its reversal", "-", (a + " // " + b)[:100], c)
                     continue
@@ -619,6 +638,7 @@ def check(ctx, replay=None):
                     if v:
                         cur = dict(t, ops=cand[:v[0] + 1])
                         exp, obs = v[2], v[3]
+                        what = what.split(" at arrow ")[0] + " at arrow %d (%s)" % (v[0], cur["ops"][v[0]] if v[0] < len(cur["ops"]) else "-")
                         changed = True
                         break
             case = cur
